@@ -18,7 +18,7 @@ for f in sorted(glob.glob(str(V / "evidence" / "C*.json"))):
     rows.append(f"| {e['property_id']} | {c.get('jobs')} | {c.get('paths')} | {c.get('obligations')} | {c.get('queries')} | {c.get('solver_s')} | {c.get('traces_validated_against_impl')} | {e['wall_s']} |")
 block("COST_TABLE", "\n".join(rows))
 block("DETECT_TABLE", subprocess.run([sys.executable, str(V / "tools" / "detect_table.py")], capture_output=True, text=True).stdout)
-for name, fn in (("SOLVER_DIFF", "refs/solver_diff.txt"), ("MUTANTS", "refs/mutants_result.txt")):
+for name, fn in (("SOLVER_DIFF", "refs/solver_diff.txt"), ("MUTANTS", "refs/mutants_result.txt"), ("THOROUGH", "refs/thorough_times.txt")):
     f = V / fn
     if f.exists():
         block(name, f.read_text())
